@@ -2096,8 +2096,8 @@ def assemble(unit_name, canary=False, demote=()):
             only = inc.get("impls")
             inc = inc["unit"]
         for f in load_unit(inc).get("fn", []):
-            if "from_unit" in f or f.get("variant"):
-                continue
+            if "from_unit" in f or f.get("variant") or f.get("no_export"):
+                continue        # no_export: the contract mentions model text only the owning unit includes
             if only is not None and f.get("impl") not in only:
                 continue
             fid = fn_id(f)
